@@ -1,2 +1,39 @@
-From BFS Require Import Backup.History.
-Example placeholder_C12 : True. Proof. exact I. Qed.
+(** C12 — transaction state survives serialisation and restart. *)
+From stdpp Require Import gmap.
+From BFS Require Import Backup.History Proofs.RollbackFacts.
+
+(** every accessor Rollback or a user can observe survives; Name() becomes the
+    base name of the map key *)
+Theorem C12_reload_info :
+  forall p fi, let fi' := reload_info p fi in
+  fi_kind fi' = fi_kind fi /\ fi_perm fi' = fi_perm fi /\ fi_uid fi' = fi_uid fi /\
+  fi_gid fi' = fi_gid fi /\ fi_mt fi' = fi_mt fi /\ fi_size fi' = fi_size fi /\
+  fi_name fi' = GoPath.base p.
+Proof. exact reload_info_accessors. Qed.
+Print Assumptions C12_reload_info.
+
+(** same paths, same existed / did-not-exist distinction, nothing else touched *)
+Theorem C12_reload_spec :
+  forall w, exists w',
+  b_persist_reload w = (MOk tt, w') /\
+  w_st w' = w_st w /\ w_trace w' = w_trace w /\ w_ticks w' = w_ticks w /\
+  (forall p, w_infos w' !! p = option_map (option_map (reload_info p)) (w_infos w !! p)).
+Proof. exact persist_reload_spec. Qed.
+Print Assumptions C12_reload_spec.
+
+(** tracked infos come from Lstat of the tracked path, whose Name() is the
+    base name of that path; under that invariant a restart changes nothing at
+    all, so everything that holds of the original instance (C01, C07) holds of
+    the re-created one *)
+Definition names_ok (w : world) : Prop :=
+  forall p fi, w_infos w !! p = Some (Some fi) -> fi_name fi = GoPath.base p.
+
+Theorem C12_restart_identity :
+  forall w, names_ok w -> b_persist_reload w = (MOk tt, w).
+Proof. exact persist_reload_identity. Qed.
+Print Assumptions C12_restart_identity.
+
+Example C12_example :
+  let fi := mkFinfo [102] KFile 2541 1000 1001 (Preset 7) 5 in
+  reload_info [47; 100; 47; 102] fi = fi.
+Proof. vm_compute. reflexivity. Qed.
